@@ -193,6 +193,7 @@ var props = []*prop{
 		Builds:      plain,
 		Quick:       budget{Shards: 14, Checks: 12000, TimeoutS: 400},
 		Thorough:    budget{Shards: 14, Checks: 100000, TimeoutS: 3000},
+		Fuzz:        &fuzzCfg{Target: "FuzzC08", Seconds: 180},
 	},
 	{
 		ID: "C09", Pkg: "c09", Level: "exploration",
@@ -236,6 +237,7 @@ var props = []*prop{
 		Builds:      plain,
 		Quick:       budget{Shards: 14, Checks: 2500, TimeoutS: 600},
 		Thorough:    budget{Shards: 14, Checks: 60000, TimeoutS: 6000},
+		Fuzz:        &fuzzCfg{Target: "FuzzC12", Seconds: 120},
 	},
 	{
 		ID: "C13", Pkg: "c13", Level: "exploration",
@@ -246,6 +248,7 @@ var props = []*prop{
 		Builds:      plain,
 		Quick:       budget{Shards: 14, Checks: 40000, TimeoutS: 300},
 		Thorough:    budget{Shards: 14, Checks: 400000, TimeoutS: 3000},
+		Fuzz:        &fuzzCfg{Target: "FuzzC13", Seconds: 180},
 	},
 	{
 		ID: "C15", Pkg: "c15", Level: "exploration",
@@ -269,6 +272,7 @@ var props = []*prop{
 		Builds:      plain,
 		Quick:       budget{Shards: 14, Checks: 40000, TimeoutS: 300},
 		Thorough:    budget{Shards: 14, Checks: 400000, TimeoutS: 3000},
+		Fuzz:        &fuzzCfg{Target: "FuzzC16", Seconds: 180},
 	},
 	{
 		ID: "C14", Pkg: "c14", Level: "exploration",
@@ -279,6 +283,7 @@ var props = []*prop{
 		Builds:      plain,
 		Quick:       budget{Shards: 14, Checks: 30000, TimeoutS: 300},
 		Thorough:    budget{Shards: 14, Checks: 1000000, TimeoutS: 3000},
+		Fuzz:        &fuzzCfg{Target: "FuzzC14", Seconds: 180},
 	},
 	{
 		ID: "C17", Pkg: "c17", Level: "exploration",
@@ -289,6 +294,7 @@ var props = []*prop{
 		Builds:      plain,
 		Quick:       budget{Shards: 14, Checks: 8000, TimeoutS: 400},
 		Thorough:    budget{Shards: 14, Checks: 120000, TimeoutS: 3000},
+		Fuzz:        &fuzzCfg{Target: "FuzzC17", Seconds: 240},
 	},
 	{
 		ID: "C18", Pkg: "c18", Level: "exploration",
@@ -299,6 +305,7 @@ var props = []*prop{
 		Builds:      plain,
 		Quick:       budget{Shards: 14, Checks: 3000, TimeoutS: 400},
 		Thorough:    budget{Shards: 14, Checks: 80000, TimeoutS: 3000},
+		Fuzz:        &fuzzCfg{Target: "FuzzC18", Seconds: 180},
 	},
 	{
 		ID: "C19", Pkg: "c19", Level: "exploration",
@@ -309,6 +316,7 @@ var props = []*prop{
 		Builds:      plain,
 		Quick:       budget{Shards: 14, Checks: 3000, TimeoutS: 400},
 		Thorough:    budget{Shards: 14, Checks: 80000, TimeoutS: 3000},
+		Fuzz:        &fuzzCfg{Target: "FuzzC19", Seconds: 180},
 	},
 	{
 		ID: "C20", Pkg: "c20", Level: "exploration",
@@ -319,5 +327,6 @@ var props = []*prop{
 		Builds:      plain,
 		Quick:       budget{Shards: 14, Checks: 20000, TimeoutS: 240},
 		Thorough:    budget{Shards: 14, Checks: 60000, TimeoutS: 1500},
+		Fuzz:        &fuzzCfg{Target: "FuzzC20", Seconds: 120},
 	},
 }
